@@ -20,7 +20,9 @@ FILES = {
     "pkg/utils.py": "class B:\n    pass\n\n\nclass C:\n    pass\n",
     "foo.py": "class foo:\n    pass\n\n\nclass Baz:\n    pass\n",
     "barfoo.py": "class Bar:\n    pass\n\n\nclass NoneTypeHolder:\n    pass\n",
-    "nest.py": "class Outer:\n    class Inner:\n        class Deep:\n            pass\n",
+    "nest.py": ("class Outer:\n    class Inner:\n        class Deep:\n            pass\n\n\n"
+                # an outer class whose name ends like the module `foo`: `foo.` occurs inside `Myfoo.Inner`
+                "class Myfoo:\n    class Inner:\n        pass\n"),
     "target.py": ("class Own:\n    pass\n\n\ndef f(a, b):\n    return a\n\n\ndef g(n):\n    yield n\n\n\n"
                   "class K:\n    def m(self, x):\n        return x\n"),
 }
@@ -61,7 +63,8 @@ class Gen(types_gen.TypeGen):
         cid = lambda c: ("cls", str(tbl.of(c)))
         user = [mods["utils"].A, mods["utils"].B, mods["pkg"].PkgCls, mods["pkg.utils"].B, mods["pkg.utils"].C,
                 mods["foo"].foo, mods["foo"].Baz, mods["barfoo"].Bar, mods["barfoo"].NoneTypeHolder,
-                mods["nest"].Outer, mods["nest"].Outer.Inner, mods["nest"].Outer.Inner.Deep, mods["target"].Own, io.StringIO, io.BytesIO]
+                mods["nest"].Outer, mods["nest"].Outer.Inner, mods["nest"].Outer.Inner.Deep, mods["nest"].Myfoo.Inner,
+                mods["target"].Own, io.StringIO, io.BytesIO]
         self.atoms = [cid(int), cid(str), cid(type(None)), cid(float), cid(bool)]
         self.classes = [cid(c) for c in user]
         self.type_of = [("typeOf", str(tbl.of(c))) for c in (mods["utils"].A, mods["pkg.utils"].B, int, mods["nest"].Outer.Inner)]
@@ -89,6 +92,30 @@ class Gen(types_gen.TypeGen):
             self.rng.shuffle(ms)
             return ("union",) + tuple(ms)
         return super().ty(depth, in_union)
+
+
+def ast_text(node):
+    import ast
+    return ast.dump(node)
+
+
+def norm_text(text):
+    import ast
+    try:
+        return ast.dump(ast.parse(text, mode="eval").body)
+    except SyntaxError:
+        return "<unparsable: %s>" % text
+
+
+def td_free_parts(t):
+    """the maximal TypedDict-free subtrees of a type"""
+    if isinstance(t, str) or t[0] in ("cls", "typeOf"):
+        return [t]
+    if not has_td(t):
+        return [t]
+    if t[0] == "td":
+        return [p for _, ft in list(t[1]) + list(t[2]) for p in td_free_parts(ft)]
+    return [p for a in t[1:] for p in td_free_parts(a)]
 
 
 def has_td(t):
@@ -160,6 +187,48 @@ def run(pid, tier, seed):
             all_names = [n for ns in kf for n in ns]
             collision = len(set(all_names)) != len(all_names)
             clash = drv.ask(("rootClash", Q("target")) + tuple(raws[:2] + [raws[2]] if which != 1 else raws[:2])) == "true"
+            # model of the namespace + evaluator (Model/EvalAnno.lean): for every TypedDict-free position, what the model says
+            # the stripped annotation text is, whether every name in it denotes what was rendered, and what it evaluates to
+            sig_raws = list(expect.values())
+            denote = {}
+            for (fn, pos), raw in expect.items():
+                if not has_td(raw):
+                    g = drv.ask(("denote", Q("target"), tuple(sig_raws), raw))
+                    denote[(fn, pos)] = (g[0] == "true", str(g[1]), None if g[2] == "none" else tyconv.canon(g[2]))
+            names_bad = any(not ok for ok, _, _ in denote.values())
+            # positions with generated classes: the same question for every TypedDict-free part (field types, members)
+            for raw in expect.values():
+                if has_td(raw):
+                    for part in td_free_parts(raw):
+                        if drv.ask(("denote", Q("target"), tuple(sig_raws), part))[0] != "true":
+                            names_bad = True
+            real = {}
+            try:
+                ev = stubeval.EvaluatedStub(text, own)
+                for (fn, pos), raw in expect.items():
+                    node = ev.funcs[fn]
+                    an = node.returns if pos == "return" else next(
+                        a.annotation for a in node.args.posonlyargs + node.args.args + node.args.kwonlyargs if a.arg == pos)
+                    if an is None:
+                        continue
+                    try:
+                        real[(fn, pos)] = (ast_text(an), tyconv.canon(ev.resolve(ev.annotation(an), tbl)))
+                    except stubeval.StubError:
+                        real[(fn, pos)] = (ast_text(an), None)
+            except stubeval.StubError:
+                pass
+            for key, (ok, mtext, mtree) in denote.items():
+                if key not in real:
+                    continue
+                rtext, rtree = real[key]
+                chk.rel("corr.C11.stubText", norm_text(mtext) == rtext, dict(case, position=list(key), impl=rtext, model=mtext))
+                chk.rel("corr.C11.eval", mtree == rtree, dict(case, position=list(key), text=rtext,
+                                                              impl=None if rtree is None else sexp.dumps(rtree),
+                                                              model=None if mtree is None else sexp.dumps(mtree)))
+                chk.count("namesOk.%s" % ok)
+                if ok and rtree != tyconv.canon(expect[key]):
+                    # the theorem's hypothesis holds in the model and the implementation's annotation does not denote the type
+                    chk.rel("corr.C11.namesOk", False, dict(case, position=list(key), text=rtext))
             try:
                 ev = stubeval.EvaluatedStub(text, own)
                 if ev.duplicate_classes:
@@ -180,7 +249,10 @@ def run(pid, tier, seed):
                 finding = None
                 if collision and e.clause in ("duplicate-class", "denotes"):
                     finding = "KF-C11-td-class-name-collision"
-                elif clash and e.clause == "denotes":
+                elif clash and names_bad and e.clause == "denotes":
+                    # both: two modules contribute one imported name (rootClash) and the model's namespace resolves some name of
+                    # the rendered annotation to something else than what was rendered (¬ namesOk, the excluded hypothesis of
+                    # MT.C11.rendered_denotes)
                     finding = "KF-C11-same-name-two-modules"
                 chk.fail(e.clause, dict(case, detail=e.detail, stub=text[:1200]), finding=finding)
                 chk.count("failed." + e.clause)
